@@ -78,12 +78,16 @@ Observe ==
 RangeTags == IF e.k = NaNKey \/ e.k < 0 \/ e.k > KeyOne \/ e.q # SaneQ(e.q) THEN {<<"C01", "range">>} ELSE {}
 
 \* ---- a logged tick --------------------------------------------------------------------------
+\* a step <<-1, _>> is unknown: the envelope runs on power-on times that differ from those of the code as first
+\* pinned (nobody states them); timing is then not checked until the time is set explicitly
+Known(p) == p[1] >= 0
+
 TickTags ==
   LET p     == IF phase \in Timed THEN StepOf(phase) ELSE <<0, 0>>
-      lo    == Lower(p)
-      hi    == Upper(p)
       same  == phase' = phase
       d     == acc' - acc
+      lo    == IF Known(p) THEN Lower(p) ELSE 0
+      hi    == IF Known(p) THEN Upper(p) ELSE (IF d > 0 /\ same THEN d + 1 ELSE M)
       dS    == Abs(S - sAtTick)
   IN   (IF ~C02_order("tick") THEN {<<"C02", "phase-order">>} ELSE {})
   \cup (IF e.a # SaneA(e.a) THEN {<<"C02", "position-range">>} ELSE {})
@@ -120,7 +124,7 @@ SkipTags ==
   LET p  == IF phase \in Timed THEN StepOf(phase) ELSE <<0, 0>>
       d  == acc' - acc
   IN   (IF phase' # phase THEN {<<"C02", "phase-order">>} ELSE {})
-  \cup (IF phase \in Timed /\ Upper(p) < M /\ (d \div e.n < Lower(p) \/ (d + e.n - 1) \div e.n > Upper(p)) THEN {<<"C02", "increment">>} ELSE {})
+  \cup (IF phase \in Timed /\ Known(p) /\ Upper(p) < M /\ (d \div e.n < Lower(p) \/ (d + e.n - 1) \div e.n > Upper(p)) THEN {<<"C02", "increment">>} ELSE {})
   \cup (IF phase \in Timed /\ phase' = phase /\ d <= 0 THEN {<<"C17", "no-progress">>} ELSE {})
   \cup RangeTags
   \cup (IF cont /\ phase = "attack" /\ e.k < lastK THEN {<<"C01", "attack-not-monotone">>} ELSE {})
@@ -172,15 +176,19 @@ TSetSustain ==
   /\ S' = SaneQ(e.cq) /\ Skey' = e.ck
   /\ UNCHANGED <<lvlOn, lvlOff, step, lastK, sAtTick, fresh>>
   /\ cont' = FALSE
-  /\ Advance(   (IF ~C02_order("set") \/ e.q # val THEN {<<"C02", "set-input-disturbs">>} ELSE {})
+  \* (phase and position must not move; whether value() shows the new level at once or on the next tick is
+  \* not specified - C03 counts it as the caller's own change either way)
+  /\ Advance(   (IF ~C02_order("set") THEN {<<"C02", "set-input-disturbs">>} ELSE {})
            \cup (IF e.cq # SaneQ(e.cq) THEN {<<"C20", "sustain-not-clamped">>, <<"C01", "range">>} ELSE {}))
 
 TNew ==
   /\ e.op = "new"
   /\ phase' = "rest" /\ acc' = 0 /\ lastAcc' = 0 /\ inc' = 0 /\ rolled' = FALSE
-  /\ lvlOn' = 0 /\ lvlOff' = 0 /\ val' = 0 /\ S' = Q /\ Skey' = KeyOne
+  \* s0 / sk0: the power-on sustain level as measured on a copy of the new envelope (1.0 as first pinned)
+  /\ lvlOn' = 0 /\ lvlOff' = 0 /\ val' = 0
+  /\ S' = (IF Has(e, "s0") THEN SaneQ(e.s0) ELSE Q) /\ Skey' = (IF Has(e, "sk0") THEN e.sk0 ELSE KeyOne)
   /\ step' = [a |-> <<e.fl, e.fr>>, d |-> <<e.fl, e.fr>>, r |-> <<e.fl, e.fr>>]
-  /\ lastK' = 0 /\ cont' = FALSE /\ sAtTick' = Q /\ fresh' = FALSE
+  /\ lastK' = 0 /\ cont' = FALSE /\ sAtTick' = (IF Has(e, "s0") THEN SaneQ(e.s0) ELSE Q) /\ fresh' = FALSE
   /\ l' = l + 1 /\ dead' = {}
   /\ Flag(l, IF e.ph # 0 \/ e.a # 0 \/ e.k # 0 THEN {<<"C02", "initial-state">>} ELSE {})
 
